@@ -278,6 +278,102 @@ def node_check(pid, tier, seed):
         shutil.rmtree(work, ignore_errors=True)
 
 
+# ---------------------------------------------------------------------------------------------
+# C09 replicas
+
+def replica_schedules(work, shapes, noise_txs, max_noise):
+    mc_wrapper(work, 'MCReplicas', 'Replicas', dict(ShapesC='{' + ', '.join(tla_seq(s) for s in shapes) + '}'))
+    write_raw_cfg(os.path.join(work, 'replicas.cfg'), [
+        'SPECIFICATION Spec', 'CONSTANTS', '  BlockShapes <- ShapesC', '  NoiseTxs = %d' % noise_txs, '  MaxNoise = %d' % max_noise,
+        'INVARIANTS Agreement ScheduleDump', 'CHECK_DEADLOCK FALSE'])
+    rc, out, wall = vlib.run_tlc(work, 'MCReplicas.tla', 'replicas.cfg', workers=vlib.NCPU, heap='12g', timeout=1500)
+    err = vlib.tlc_failed(out)
+    if err:
+        raise Inconclusive('Replicas.tla model checking reported: %s\n%s' % (err, out[-2500:]))
+    gen, dist, depth = vlib.parse_mc_summary(out)
+    scheds = [dict(shape=v[1], schedule=v[2]) for v in printed_values(out, 'SCHEDULE')]
+    return scheds, dist, gen
+
+
+def merge_txs(a, b):
+    if a.get('exec', 'none') != 'none' or b.get('exec', 'none') != 'none':
+        return None
+    return dict(msgs=a['msgs'] + b['msgs'], signers=sorted(set(a['signers']) | set(b['signers'])), fee=0, exec='none')
+
+
+def drop_one_histories(work, seed, n, total):
+    """(history, noise) pairs: a simulated behaviour with one ACCEPTED transaction d_i left out of the blocks; the noise transactions are
+    d_i itself and d_i merged with each of the next two transactions (multi-message transactions that are only ever checked/simulated)."""
+    pre = configs.preset('C15', 'quick')
+    simc = dict(pre['sims'][0]['constants'], FailKeep=6)
+    behs = vlib.simulate(work, simc, n, 40, seed + 5)
+    out = []
+    for bi, steps in enumerate(behs):
+        dl = [a for a in steps if a.get('name') == 'Deliver']
+        oks = [i for i, a in enumerate(dl) if a.get('result') == 'ok' and i + 2 < len(dl)]
+        if not oks:
+            continue
+        i = oks[(bi + seed) % len(oks)]
+        txs = [a['tx'] for a in dl]
+        start = max(0, i - (total - 3))
+        hist = txs[start:i] + txs[i + 1:]
+        hist = hist[:total]
+        if len(hist) < total:
+            continue
+        noise = [txs[i]] + [m for m in (merge_txs(txs[i], txs[i + 1]), merge_txs(txs[i], txs[i + 2])) if m]
+        while len(noise) < 3:
+            noise.append(txs[i])
+        out.append((hist, noise[:3]))
+    return out
+
+
+def replicas_check(tier, seed):
+    pid = 'C09'
+    t0 = time.time()
+    q = tier == 'quick'
+    work = vlib.scratch(pid)
+    try:
+        vlib.copy_spec(work)
+        harness = vlib.build_harness()
+        shapes = [[2, 2]] if q else [[2, 2], [1, 2, 1], [3, 2]]
+        scheds, states, trans = replica_schedules(work, shapes, 3, 2)
+        byshape = {}
+        for sc in scheds:
+            byshape.setdefault(tuple(sc['shape']), []).append(sc['schedule'])
+        jobs = []
+        limit = 160 if q else 4000
+        for shp, lst in byshape.items():
+            hists = drop_one_histories(work, seed, 80 if q else 500, sum(shp))
+            if not hists:
+                raise Inconclusive('no histories for shape %s' % (shp,))
+            lst = sorted(lst, key=lambda s: json.dumps(s))
+            # deterministic spread over the enumerated schedules: every schedule is used as A or as B when the limit allows it
+            stride = max(1, len(lst) // max(1, limit // len(byshape)))
+            picks = lst[(seed % stride)::stride]
+            for pi, sa in enumerate(picks):
+                sb = lst[(pi * 7 + seed + len(lst) // 2) % len(lst)]
+                hist, noise = hists[(pi + seed) % len(hists)]
+                jobs.append(dict(id='C09-%s-%d' % ('x'.join(map(str, shp)), pi), cfg={}, blocks=shape_history(hist, list(shp)), noise=noise, schedA=sa, schedB=sb))
+        log('C09: %d schedules from TLC, %d jobs (each: replica A in-process, replica B in a GOMAXPROCS=1 subprocess)' % (len(scheds), len(jobs)))
+        traces = run_harness_jobs(work, harness, 'replicas', jobs)
+        mc_wrapper(work, 'MCReplicasTrace', 'ReplicasTrace', dict(ShapesC='{}'))
+        write_raw_cfg(os.path.join(work, 'reptrace.cfg'), ['SPECIFICATION TraceSpec', 'CONSTANTS', '  BlockShapes <- ShapesC', '  NoiseTxs = 3', '  MaxNoise = 1000',
+                                                           'POSTCONDITION TraceAccepted', 'CHECK_DEADLOCK FALSE'])
+        viol, drift, lines = validate_with(work, 'MCReplicasTrace.tla', 'reptrace.cfg', traces)
+        cov = dict(states=states, transitions=trans, traces_validated_against_impl=len(jobs), trace_events_validated=lines,
+                   samples=[dict(schedA=jobs[0]['schedA'], schedB=jobs[0]['schedB'], noise=jobs[0]['noise'][:1])] if jobs else [],
+                   evaluations=len(jobs), distinct_nontrivial=len({json.dumps([j['schedA'], j['schedB']]) for j in jobs}),
+                   rule='noise schedules are complete runs of Replicas.tla (<=2 noise actions out of Check/Recheck/Simulate of 3 noise transactions, Query, clean Restart) enumerated by TLC for shapes %s; '
+                        'a job pairs two different schedules; non-trivial: at least one replica has noise and the two schedules differ' % shapes,
+                   exhaustive=False, schedules_enumerated=len(scheds), shapes=shapes)
+        return conclude(pid, tier, seed, t0, viol, drift, cov,
+                        ['hardware parallelism is varied only through GOMAXPROCS (16 vs 1) and process identity/start time',
+                         'noise transactions are accepted transactions left out of the blocks, alone and merged with their successors'],
+                        {j['id']: j for j in jobs})
+    finally:
+        shutil.rmtree(work, ignore_errors=True)
+
+
 NO_STORE_THEN = {'vesting', 'genutil', 'crisis'}   # modules of the first descriptor's fromVM that had no KV store at that SDK version
 STORE_NAME = {'auth': 'acc'}
 
@@ -315,6 +411,7 @@ def upgrades_static(work, harness):
 
 
 CHECKS = {
+    'C09': replicas_check,
     'C10': lambda tier, seed: node_check('C10', tier, seed),
     'C19': lambda tier, seed: node_check('C19', tier, seed),
 }
